@@ -55,13 +55,14 @@ static struct {
 	int note_done[NNOTE];    /* an nsync_note_notify on the note has RETURNED */
 	int note1_child;         /* note[1] is a child of note[0] */
 	int qepi;                /* Mode B: every epilogue first waits for quiescence and checks that every sleeper sleeps legitimately */
+	int dbg_spin[RT_MAXT], dbg_budget;
 	int vsh[NV];             /* shadow of v[] kept with relaxed atomics (no happens-before edges), read by oracles that run outside the mutex: v[] itself stays PLAIN for ThreadSanitizer */
 	int wait_var[RT_MAXT];   /* index of the variable a thread's current nsync_mu_wait depends on, -1 = none, -2 = NULL condition */
 	int cv_foreign[NCV];   /* this round, waits on cv[j] pass harness lock/unlock callbacks (a foreign lock to nsync) */
 } S;
 
 enum { CV_ACQ = 0, CV_ACQ_SLEPT, CV_TRY_OK, CV_TRY_FAIL, CV_CVWAIT_0, CV_CVWAIT_TO, CV_CVWAIT_CANCEL, CV_MUWAIT_0, CV_MUWAIT_TO, CV_MUWAIT_CANCEL,
-       CV_WAITN_READY, CV_WAITN_TO, CV_WAIT_SLEPT, CV_COND_EVALS, CV_DEBUG_CALLS, CV_NOWAKE, CV_SECTIONS, CV_UNTIMED, CV_CHURN, CV_IDLE, CV_QEPI, CV_DEBUG_IN_COND };
+       CV_WAITN_READY, CV_WAITN_TO, CV_WAIT_SLEPT, CV_COND_EVALS, CV_DEBUG_CALLS, CV_NOWAKE, CV_SECTIONS, CV_UNTIMED, CV_CHURN, CV_IDLE, CV_QEPI, CV_DEBUG_IN_COND, CV_DEBUG_FROZEN };
 
 /* ---- oracles ----------------------------------------------------------------------- */
 static void enter (int writer, const char *how) {
@@ -93,6 +94,9 @@ static void word_cb (int idx, int op, uint32_t old_v, uint32_t new_v, int ok) {
 	(void) idx; (void) op; (void) old_v;
 	if (ok && (new_v & SC_MU_WLOCK) != 0 && (new_v & SC_MU_RLOCK_FIELD) != 0)
 		rt_violation ("exclusion-word", "wlock-and-readers", "mutex word %#x written with both the writer bit and a reader count (old %#x)", new_v, old_v);
+	/* rounds with debug-state callers (Mode B): remember who holds the queue spinlock on behalf of a debug-state call; the adversary
+	   below freezes that thread while others can run, so that releases, try-locks and queueing attempts land inside the call */
+	if (in_debug && ok) { int self = rt_self (); if (self >= 0) { if (op <= 4 && !(old_v & 2u) && (new_v & 2u)) { S.dbg_spin[self] = 1; S.dbg_budget = 24; rt_cover (CV_DEBUG_FROZEN); } else if (!(new_v & 2u)) S.dbg_spin[self] = 0; } }
 	/* C16: the debug-state functions only observe: apart from taking and releasing the queue spinlock they leave the word alone */
 	if (ok && in_debug && op <= 4 && ((old_v ^ new_v) & ~2u) != 0)
 		rt_violation ("debug-modified-word", "nsync_mu_debug_state_and_waiters", "a debug-state call changed the mutex word from %#x to %#x (more than the queue spinlock bit)", old_v, new_v);
@@ -142,6 +146,7 @@ static void debug_calls (int which, char *buf, int n) {
 	default: nsync_cv_debug_state_and_waiters (&S.cv[rt_rand_n (NCV)], buf, n); break;
 	}
 	in_debug = 0;
+	{ int self = rt_self (); if (self >= 0) S.dbg_spin[self] = 0; }
 }
 static void do_debug (void) {
 	static const char *const dn[4] = { "nsync_mu_debug_state", "nsync_mu_debug_state_and_waiters", "nsync_cv_debug_state", "nsync_cv_debug_state_and_waiters" };
@@ -362,6 +367,14 @@ static void legit_sleep_check (const char *when) {
 }
 static void idle_check (void) { rt_cover (CV_IDLE); legit_sleep_check ("idle instant (only deadlines are pending)"); }
 
+static int adversary (int self, int forced, const int *run, int n) {
+	int i, frozen = 0, other = -1;
+	for (i = 0; i < n; i++) { if (S.dbg_spin[run[i]]) frozen++; else if (other < 0 || (run[i] == self && !forced)) other = run[i]; }
+	if (frozen == 0 || other < 0 || S.dbg_budget <= 0) return (-1);
+	S.dbg_budget--;
+	return (other);
+}
+
 /* ---- generation -------------------------------------------------------------------- */
 static int pick_dl (void) {
 	static const int b_dl[] = { 0, 100, 400, 1000, 3000, 10000, 100000, 1000000 };
@@ -372,7 +385,7 @@ static int pick_dl (void) {
 /* Swarm generation: every round draws its own feature weights, so that some rounds are dominated by (or entirely lack) a
    kind of acquisition, action, deadline scale, timed/cancellable share: a uniform mix rarely produces e.g. a storm of readers
    around reader-mode timed conditional waits.  Half of the rounds use the plain weights.  */
-static struct { int acq_w[5], act_w[9], timed_pct, note_pct, dl_scale; } SW;
+static struct { int acq_w[5], act_w[9], timed_pct, note_pct, dl_scale, nowake_of_4; } SW;
 static const int acq_base[5] = { 35, 30, 10, 10, 15 };                      /* LOCK RLOCK TRY RTRY NONE */
 static const int act_base[9] = { 18, 20, 24, 10, 8, 6, 4, 6, 4 };          /* SETV CVWAIT MUWAIT WAITN SIGNAL BCAST NOTIFY POINT DEBUG */
 static int weighted (const int *w, int n) {
@@ -388,11 +401,12 @@ static void gen_swarm (void) {
 	for (i = 0; i < 5; i++) SW.acq_w[i] = acq_base[i] * (plain ? 1 : factor[rt_rand_n (4)]);
 	for (i = 0; i < 9; i++) SW.act_w[i] = act_base[i] * (plain ? 1 : factor[rt_rand_n (4)]);
 	if (SW.acq_w[0] + SW.acq_w[1] + SW.acq_w[2] + SW.acq_w[3] == 0) SW.acq_w[rt_rand_n (2)] = 30;   /* some blocking acquisition */
-	if (!S.debug_on) SW.act_w[8] = 0;
+	if (!S.debug_on) SW.act_w[8] = 0; else SW.act_w[8] = SW.act_w[8] * 3 + 6;    /* rounds with debug-state callers: plenty of calls */
 	if (SW.act_w[0] + SW.act_w[1] + SW.act_w[2] + SW.act_w[3] + SW.act_w[7] == 0) SW.act_w[7] = 6;
 	SW.timed_pct = plain ? 70 : (int) rt_rand_n (3) * 35 + 30;       /* 30 / 65 / 100 */
 	SW.note_pct = plain ? 30 : (int) rt_rand_n (3) * 30;              /* 0 / 30 / 60 */
 	SW.dl_scale = plain ? 0 : (int) rt_rand_n (3);                     /* 0 any, 1 short, 2 long */
+	SW.nowake_of_4 = plain ? 1 : 1 + (int) rt_rand_n (3);            /* share of write sections that end with nsync_mu_unlock_without_wakeup when they changed nothing */
 	rt_ev ((uint32_t) (plain | SW.timed_pct << 1 | SW.note_pct << 9 | SW.dl_scale << 17));
 }
 static int swarm_dl (void) {
@@ -440,7 +454,7 @@ static int setup (uint64_t seed) {
 	for (i = 0; i < NCV; i++) S.cv_foreign[i] = (rt_rand_n (4) == 0);
 	for (i = 0; i < RT_MAXT; i++) { S.wait_var[i] = -1; S.wait_note[i] = 0; }
 	S.qepi = rt_mode_b () && rt_rand_n (2);
-	S.final_ = 0; S.W = 0; S.R = 0; S.ca = 0; S.cb = 0;
+	S.final_ = 0; S.W = 0; S.R = 0; S.ca = 0; S.cb = 0; memset (S.dbg_spin, 0, sizeof (S.dbg_spin)); S.dbg_budget = 0;
 	{ int maxt = (int) rt_param ("maxthreads", rt_mode_b () ? 4 : 6);
 	  if (maxt > rt_scen.max_threads) maxt = rt_scen.max_threads;
 	  n = 2 + (int) rt_rand_n ((unsigned) (maxt - 1)); }
@@ -455,7 +469,7 @@ static int setup (uint64_t seed) {
 			s->acq = acqs[weighted (SW.acq_w, 5)];
 			s->nact = (int) rt_rand_n (MAXACT + 1);
 			if (s->acq == ACQ_NONE && s->nact == 0) s->nact = 1;
-			s->nowake = rt_rand_n (4) == 0;
+			s->nowake = (int) rt_rand_n (4) < SW.nowake_of_4;
 			for (j = 0; j < s->nact; j++) { gen_act (t, &s->a[j], s->acq); rt_ev ((uint32_t) (s->acq * 16 + s->a[j].kind + 1000 * s->a[j].timed + 77 * s->a[j].variant)); }
 		}
 		for (i = 0; i < NV; i++) S.al[t][i].p = &S.v[i];
@@ -503,12 +517,13 @@ static void dump_state (FILE *f) {
 }
 
 static void pinit (void) {
+	if (rt_param ("debug", 0)) rt_scen.adversary = &adversary;    /* only the rounds with debug-state callers are steered (and lose the store stalls) */
 	rt_cover_name (CV_ACQ, "blocking_acquisitions"); rt_cover_name (CV_ACQ_SLEPT, "acquisitions_that_slept");
 	rt_cover_name (CV_TRY_OK, "trylock_ok"); rt_cover_name (CV_TRY_FAIL, "trylock_failed");
 	rt_cover_name (CV_CVWAIT_0, "cvwait_woken"); rt_cover_name (CV_CVWAIT_TO, "cvwait_timedout"); rt_cover_name (CV_CVWAIT_CANCEL, "cvwait_cancelled");
 	rt_cover_name (CV_MUWAIT_0, "muwait_true"); rt_cover_name (CV_MUWAIT_TO, "muwait_timedout"); rt_cover_name (CV_MUWAIT_CANCEL, "muwait_cancelled");
 	rt_cover_name (CV_WAITN_READY, "waitn_ready"); rt_cover_name (CV_WAITN_TO, "waitn_timedout"); rt_cover_name (CV_WAIT_SLEPT, "waits_that_slept");
-	rt_cover_name (CV_COND_EVALS, "condition_evaluations"); rt_cover_name (CV_DEBUG_CALLS, "debug_calls"); rt_cover_name (CV_DEBUG_IN_COND, "debug_calls_made_inside_a_condition_evaluation"); rt_cover_name (CV_NOWAKE, "unlock_without_wakeup");
+	rt_cover_name (CV_COND_EVALS, "condition_evaluations"); rt_cover_name (CV_DEBUG_CALLS, "debug_calls"); rt_cover_name (CV_DEBUG_FROZEN, "debug_calls_frozen_while_holding_the_queue_spinlock"); rt_cover_name (CV_DEBUG_IN_COND, "debug_calls_made_inside_a_condition_evaluation"); rt_cover_name (CV_NOWAKE, "unlock_without_wakeup");
 	rt_cover_name (CV_SECTIONS, "sections"); rt_cover_name (CV_UNTIMED, "untimed_waits"); rt_cover_name (CV_CHURN, "short_lived_threads"); rt_cover_name (CV_IDLE, "idle_instants_checked"); rt_cover_name (CV_QEPI, "quiescent_instants_checked_before_an_epilogue");
 }
 
